@@ -59,10 +59,18 @@ SubOK(c, s) ==
               l == OutLayoutOf(c, m.fo) IN
           ~o.tomb /\ o.low = l.entry /\ o.len = l.end - l.entry
 
+\* the correspondence used above comes from the recorded code transform; independently of it, every operator of a kept
+\* function that survives elision (reachable, not a nop -- decided on the input alone) must have an image, or its row
+\* would be dropped without anybody noticing
+AllSurvivorsMapped(c, m) == m.imported \/ m.fo < 0 \/ Cardinality({q \in DOMAIN m.map : m.map[q] # 0}) >= m.survivors
+
 Verdict(c) ==
   IF c.outcome # "ok" THEN <<"outcome", c.version, c.spanning, c.variant, c.outcome>>
   ELSE IF ~c.out_valid THEN <<"ok">>     \* an invalid output is C02's / C06's violation, not a statement about debug addresses
   ELSE IF c.read_error # "" THEN <<"output-dwarf-unreadable", c.read_error>>
+  ELSE IF \E m \in Ran(c.fmap) : ~AllSurvivorsMapped(c, m) THEN
+       LET m == CHOOSE x \in Ran(c.fmap) : ~AllSurvivorsMapped(c, x) IN
+       <<"surviving-instruction-without-image", c.variant, m.fi, m.survivors, Cardinality({q \in DOMAIN m.map : m.map[q] # 0})>>
   ELSE IF \E s \in Ran(c.in_subs) : ~SubOK(c, s) THEN
        LET s == CHOOSE x \in Ran(c.in_subs) : ~SubOK(c, x) IN
        <<"subprogram-range", c.variant, s, {o \in Ran(c.out_subs) : o.fi = s.fi}, FMap(c, s.fi).fo>>
